@@ -871,6 +871,39 @@ struct Extractor : public RecursiveASTVisitor<Extractor> {
     return true;
   }
 
+  json::Value apvalue(const APValue& V, QualType T, int depth) {
+    if (depth > 3) return nullptr;
+    if (V.isInt()) return (int64_t)V.getInt().getExtValue();
+    if (V.isArray()) {
+      unsigned n = V.getArraySize();
+      if (n > 4096) return nullptr;
+      QualType ET = T;
+      if (const ArrayType* AT = Ctx.getAsArrayType(T)) ET = AT->getElementType();
+      json::Array a;
+      for (unsigned i = 0; i < n; ++i) {
+        const APValue& E = i < V.getArrayInitializedElts() ? V.getArrayInitializedElt(i) : V.getArrayFiller();
+        json::Value ev = apvalue(E, ET, depth + 1);
+        if (ev.kind() == json::Value::Null) return nullptr;
+        a.push_back(std::move(ev));
+      }
+      return std::move(a);
+    }
+    if (V.isStruct()) {
+      const CXXRecordDecl* RD = T->getAsCXXRecordDecl();
+      if (!RD) return nullptr;
+      json::Object o;
+      unsigned i = 0;
+      for (const FieldDecl* F : RD->fields()) {
+        if (i >= V.getStructNumFields()) break;
+        json::Value fv = apvalue(V.getStructField(i), F->getType(), depth + 1);
+        if (fv.kind() != json::Value::Null) o[qualName(F)] = std::move(fv);
+        ++i;
+      }
+      return std::move(o);
+    }
+    return nullptr;
+  }
+
   bool VisitVarDecl(VarDecl* VD) {
     if (isa<ParmVarDecl>(VD)) return true;
     if (!VD->hasGlobalStorage()) return true;    // globals, static members, static locals
@@ -894,6 +927,13 @@ struct Extractor : public RecursiveASTVisitor<Extractor> {
       if (VD->getType()->isIntegralOrEnumerationType()) {
         Expr::EvalResult R;
         if (Init->EvaluateAsInt(R, Ctx)) go["cv"] = (int64_t)R.Val.getInt().getExtValue();
+      } else if (VD->getType().isConstQualified() &&
+                 (VD->getType()->isRecordType() || VD->getType()->isArrayType())) {
+        // a constant table (constexpr object / const array of integers): its evaluated value
+        if (const APValue* V = VD->evaluateValue()) {
+          json::Value t = apvalue(*V, VD->getType(), 0);
+          if (t.kind() != json::Value::Null) go["cvtab"] = std::move(t);
+        }
       }
     }
     globals.push_back(std::move(go));
